@@ -41,6 +41,22 @@ CLAIMS["C18"] = dict(
          "(error classes checked on the implementation only).",
 )
 
+CLAIMS["C15"] = dict(
+    technique="Lean 4 evaluator laws for all operand trees + documented equations proved for arbitrary word operands over the regenerated operator table + interning theorem; generated-grammar correspondence and identity oracle",
+    text="Machine-checked proof that (1) each documented equivalence holds in the evaluator model for ALL operand parse "
+         "trees (grouping, f > x / f(!x), f(a) > x / f(a, !x), f() as r / f(!#value as r), $x / * as x, f(b)=c / "
+         "f(b, #value=c)); (2) for every documented equation both spellings, as token lists whose word operands have "
+         "arbitrary text, compile (parser over the operator table regenerated from the source + evaluator) to the same "
+         "selector; (3) interning returns the same object iff the fields are equal, given a reflexive key equality, "
+         "with a witness that non-reflexive equality breaks it. The model is compared with ptera.selector.parse on "
+         "generated grammar terms in every style/whitespace variant, and the implementation is checked for "
+         "parse(lhs) is parse(rhs), identity<->structure and the focus element.",
+    design_ref="DESIGN.md section 5, C15",
+    note="The full statement over compound operands at parser level (operand-absorption lemma of the precedence loop) is "
+         "not proved: compound operands are covered by the evaluator laws plus bounded generated correspondence. "
+         "Re-spacing is checked by correspondence and oracle only (the lexer model is hand-written; Python's re is modelled).",
+)
+
 PENDING_REASON = ("not claimed yet in this build: the Lean model and correspondence check for this property are "
                   "still under construction (see DESIGN.md section 11); the technique applies and the property "
                   "will move to `checks` when its check exists")
